@@ -50,9 +50,101 @@ def parse_clause(expr):
 
 
 class Verifier:
-    def __init__(self, world=None):
+    def __init__(self, world=None, contracts=None):
         self.world = world or World()
         self.spec_module_cache = {}
+        self.modular = {}
+        self.world.contract_hook = self.call_hook
+        for c in contracts or []:
+            self.register_modular(c)
+
+    # ---- modular calls: a callee under contract is replaced by its contract at call sites --------
+    def register_modular(self, c):
+        if c.modular is None:
+            return
+        fv = self.world.lookup(c.target)
+        self.modular[id(fv.node)] = c
+
+    def call_hook(self, ctx, fn, args, kwargs):
+        c = self.modular.get(id(fn.node))
+        if c is None or ctx.spec_mode:
+            return NotImplemented
+        # ground calls (no symbolic state reachable from the arguments) are evaluated by executing the
+        # real body; the contract stands in only where the call is symbolic
+        if not any(self.deep_sym(ctx, a) for a in list(args) + list(kwargs.values())):
+            return NotImplemented
+        return self.apply_contract(ctx, c, fn, args, kwargs)
+
+    def deep_sym(self, ctx, v, depth=4, seen=None):
+        if isinstance(v, Sym):
+            return True
+        if depth == 0:
+            return False
+        if isinstance(v, tuple):
+            return any(self.deep_sym(ctx, x, depth - 1, seen) for x in v)
+        if isinstance(v, Ref):
+            seen = seen if seen is not None else set()
+            if v.id in seen:
+                return False
+            seen.add(v.id)
+            c = ctx.cell(v)
+            if isinstance(c, HObj):
+                return any(self.deep_sym(ctx, x, depth - 1, seen) for x in c.fields.values())
+            if isinstance(c, HList):
+                return c.items is None or any(self.deep_sym(ctx, x, depth - 1, seen) for x in c.items)
+            if isinstance(c, HDict):
+                return any(self.deep_sym(ctx, x, depth - 1, seen) for x in c.d.values())
+        return False
+
+    def apply_contract(self, ctx, c, fn, args, kwargs):
+        from .loops import havoc
+        bindings = ctx.bind(fn, args, kwargs)
+        sfr = self.spec_frame(c, ctx, bindings)
+        sink = ctx.obligation_sink
+        tag = f"call[{fn.qualname}]"
+        ctx.assumed.add(f"call of {c.target} replaced by its contract (verified separately)")
+        for k, r in enumerate(c.requires_):
+            node, _ = parse_clause(r)
+            v = self.eval_spec(ctx, sfr, node)
+            if sink is not None:
+                sink.check(ctx, f"{tag}/pre[{k}]", v)
+            if isinstance(v, Sym):
+                ctx.assume(ops.truth_term(v))
+            elif not ctx.truthy(v):
+                raise Infeasible()
+        parsed = []
+        for lab, e in c.ensures_:
+            node, olds = parse_clause(e)
+            for k, o in enumerate(olds):
+                sfr.locals[f"__old_{k}"] = self.snapshot(ctx, self.eval_spec(ctx, sfr, o))
+            # evaluate old() of this clause now: rename per clause
+            for n in ast.walk(node):
+                if isinstance(n, ast.Name) and n.id.startswith("__old_") and n.id.count("_") == 3:
+                    new = f"{n.id}_{lab}"
+                    sfr.locals[new] = sfr.locals[n.id]
+                    n.id = new
+            parsed.append((lab, node))
+        # exceptional behaviour: raise exactly when the stated condition holds
+        for lab, excs, when in c.raises_:
+            node, _ = parse_clause(when)
+            w = self.eval_spec(ctx, sfr, node)
+            if ctx.truthy(w):
+                ctx.raise_exc((excs or ["Exception"])[0], (f"raised by contract of {fn.qualname}",))
+        class _Spec:
+            kinds = c.modular.get("kinds", {})
+        for t in (c.modifies_ or []):
+            havoc(ctx, sfr, t, _Spec)
+        result = None
+        if c.modular.get("result") is not None:
+            result = c.modular["result"](_FreshBuilder(ctx, self.world))
+        sfr.locals["result"] = result
+        for lab, node in parsed:
+            v = self.eval_spec(ctx, sfr, node)
+            if isinstance(v, Sym):
+                ctx.assume(ops.truth_term(v))
+            elif not ctx.truthy(v):
+                raise Infeasible()
+        return result
 
     # ---- spec environment ---------------------------------------------------------------------
     def spec_frame(self, contract, ctx, bindings):
@@ -416,6 +508,18 @@ def _model_value(v):
         except Exception:
             return str(v)
     return str(v)
+
+
+class _FreshBuilder(SymBuilder):
+    """builder for contract results at call sites: every symbol gets a path-unique name"""
+
+    def _sym(self, name, kind):
+        return self.ctx.fresh(kind, name)
+
+    def seq(self, name, ek):
+        self.ctx.fresh_n += 1
+        sort = z3.SeqSort(ops.elem_sort(ek))
+        return self.ctx.alloc(HList(items=None, seq=z3.Const(f"{name}!{self.ctx.fresh_n}", sort), ek=ek))
 
 
 class _Sink:
